@@ -99,6 +99,12 @@ def gen_cases(tier: str, seed: int):
         rows = []
         for _ in range(nrows):
             rows.append([r.choice([p for p in pool if p[1] == t])[0] for t in types])
+        # column names: distinct, or (one result in six) repeated - two columns of one name keep their own types and values
+        nm = (lambda j: f"C{j}") if r.random() > 0.17 or ncols == 1 else r.choice([lambda j: "C", lambda j: f"C{j % 2}", lambda j: f"C{j // 2}"])
+        names = [nm(j) for j in range(ncols)]
+        if len(set(names)) < ncols:
+            yield {"kind": "typed", "sql": " UNION ALL ".join("SELECT " + ", ".join(f"{v} AS {names[j]}" for j, v in enumerate(row)) for row in rows), "types": types, "dup_names": True}
+            continue
         if r.random() < 0.08:
             sql = "SELECT " + ", ".join(f"{v} AS C{j}" for j, v in enumerate(rows[0])) + " WHERE 1 = 0"
         elif r.random() < 0.03:
@@ -357,6 +363,8 @@ def run_case(case: dict, env: core.Env) -> None:
         return
     if kind == "typed":
         env.cover("typed_types", "+".join(sorted(set(case["types"]))))
+        if case.get("dup_names"):
+            env.count("typed_results_with_repeated_column_names")
         if not _compare(env, case["sql"], "typed", case["types"]):
             _resync()
         env.nontrivial(case["sql"])
